@@ -260,7 +260,7 @@ int main(int argc, char **argv)
     if (NOPS > 250) { fprintf(stderr, "alphabet too large (%d)\n", NOPS); return 2; }
 
     setenv("PARSEC_MCA_mca_sched", modname, 1);
-    setenv("PARSEC_MCA_bind_threads", "0", 0);
+    setenv("PARSEC_MCA_bind_threads", "0", 1);
     int pargc = 1; char *pargv_[] = { (char *)"c09", NULL }; char **pargv = pargv_;
     context = parsec_init(1, &pargc, &pargv);
     if (!context || !parsec_current_scheduler) { fprintf(stderr, "parsec_init failed\n"); return 2; }
